@@ -73,6 +73,10 @@ func GenFor(model string, minN, maxN int) func(t *rapid.T) Case {
 		name := model
 		if name == "" {
 			name = rapid.SampledFrom(simref.Names()).Draw(t, "model")
+			if rapid.IntRange(0, 7).Draw(t, "tableModel") == 0 {
+				// the two models with table-valued (dimensioned) parameters would otherwise be 2 of 41
+				name = rapid.SampledFrom([]string{"Storage", "RatingCurvePartition"}).Draw(t, "dimModel")
+			}
 		}
 		maxT := 40
 		c := Case{Model: name, N: rapid.IntRange(minN, maxN).Draw(t, "N"), T: rapid.IntRange(1, maxT).Draw(t, "T")}
